@@ -93,8 +93,8 @@ PROPS = {
             'digest_groups': ['interpreterDigests', 'evalCases'], 'campaign': E.c16},
     'C17': {'ties': ['tie_natives', 'tie_arities'], 'digests': nat(*NATIVES) + it('NewInterpreter', 'toNumber') + ev('Call'), 'campaign': E.c17,
             'partial': [PLATFORM_NOTE + '; accuracy of the platform math library is neither modelled nor claimed', 'clock is checked against the wall clock only']},
-    'C18': {'ties': ['tie_keywords', 'tie_twoOps', 'tie_digitMap', 'tie_digitRanges', 'tie_blanks', 'tie_otherCases'], 'digests': lx(LEXER_ALL) + en(ENV_ALL) + ev('Grouping') + pa(['Parser.primary', 'Parser.varDeclaration']),
-            'campaign': E.c18, 'partial': ['renaming and dead-code invariance are decided by correspondence and metamorphic runs; the Lean theorems cover trivia, digit script, synonyms and grouping']},
+    'C18': {'ties': ['tie_keywords', 'tie_twoOps', 'tie_digitMap', 'tie_digitRanges', 'tie_blanks', 'tie_otherCases'], 'digests': lx(LEXER_ALL) + en(ENV_ALL) + ev('Grouping') + pa(PARSER_LADDER + ['Parser.varDeclaration']),
+            'campaign': E.c18, 'partial': ['renaming and dead-code invariance are decided by correspondence and metamorphic runs; the Lean theorems cover trivia insertion after any token (whole texts), digit script, synonyms and grouping']},
     'C19': {'ties': ['tie_exits'], 'digests': ['mainDigests:main', 'mainDigests:run', 'mainDigests:runFile', 'mainDigests:runPrompt', 'utilsDigests:report', 'utilsDigests:RuntimeError', 'utilsDigests:GlobalError', 'utilsDigests:GlobalErrorToken'] + nat('Input'),
             'digest_groups': ['mainDigests', 'utilsDigests'], 'campaign': C.c19, 'partial': ['OS file errors and pipe buffering are runtime behaviours; the unreadable-file message is compared up to the OS part']},
     'C20': {'ties': [], 'digests': ['mainDigests:runPrompt', 'mainDigests:run', 'mainDigests:main'] + ev('ExpressionStatement') + it('NewInterpreter', 'Interpreter.Interpret'), 'campaign': C.c20,
